@@ -97,6 +97,16 @@ class JaqalLexer(Lexer):
         token.value = int(token.value[1:-1], base=2)
         return token
 
+    def error(self, token):
+        """Standard callback by the lexer for illegal characters."""
+        column = token.index - self.text.rfind("\n", 0, token.index)
+        raise JaqalParseError(
+            "<string>",
+            self.lineno,
+            column,
+            f"Illegal character {token.value[0]!r}",
+        )
+
 
 class JaqalParser(Parser):
     """Parse Jaqal into core types."""
@@ -484,8 +494,7 @@ class JaqalParser(Parser):
             line = token.lineno
             col = self.compute_col(token.index)
         else:
-            line = "EOF"
-            col = 0
+            raise JaqalParseError(self._source, "EOF", 0, "Unexpected end of input")
         raise JaqalParseError(self._source, line, col, f"At token `{token.value}`")
 
     def raise_error(self, message):
